@@ -90,14 +90,18 @@ CHECKS = [
           "(41 classes, all entries incl. the ones filled in by the module-level loop). Verified symbolically for a generic receiver "
           "class (see C17): adding, subtracting or ordering quantities of different types is refused (ValueError / TypeError "
           "exactly when the dynamic classes differ), same-type + - and the six comparisons act on the SI values, scaling by a plain "
-          "number multiplies / divides the SI value. The product / quotient of two quantities (class-object keyed tables, SI "
-          "arithmetic, as_quantity) and the SI string round trip are NOT verified symbolically: BOUNDED stand-ins run the real * and / "
-          "on all 41x41 ordered class pairs (value, signature, named-vs-generic result), check that operands are not modified and "
-          "results do not alias, and print/parse every signature of a bounded set in all formats; labelled bounded, not counted.",
+          "number multiplies / divides the SI value; the product / quotient of two quantities whose class pair has an entry in the "
+          "conversion table is a new object of exactly the class the table prescribes, in its base unit, with SI value = product / "
+          "quotient of the SI values (ZeroDivisionError exactly for a zero divisor) -- together with TInv this is the dimensional "
+          "soundness of named results. Pairs WITHOUT a table entry (generic SI result: SI arithmetic on signature lists, asSI, "
+          "as_quantity) and the SI string round trip are not verified symbolically: BOUNDED stand-ins run the real * and / on all "
+          "41x41 ordered class pairs (value, signature, named-vs-generic result), check that operands are not modified and results "
+          "do not alias, and print/parse every signature of a bounded set in all formats; labelled bounded, not counted.",
   "design_ref": "DESIGN.md section 6 C16",
   "category": "proof",
-  "note": COMMON_NOTE + " Quantity x Quantity products / quotients: bounded (1681 pairs x 1 value pair + operand-reuse sweep). The "
-          "Quantity construction contract is assumed (see C17).",
+  "note": COMMON_NOTE + " Generic-SI products / quotients: bounded (1681 pairs x 1 value pair + operand-reuse sweep). The Quantity "
+          "construction contract (`cls(value, unit)`: ValueError for an undeclared unit, else SI value = value * factor) is assumed "
+          "(see C17); the conversion tables are uninterpreted maps constrained by 'entries are quantity classes' (checked by TInv).",
   "technique": "ground obligations over the live conversion tables (exhaustive evaluation); deductive verification of refusal / same-type / scaling clauses for a generic receiver; bounded native stand-ins for Quantity x Quantity and SI strings"},
  {"property_id": "C17",
   "text": "Quantity._val/__add__/__sub__/__neg__/__abs__/__eq__/__ne__/__lt__/__le__/__gt__/__ge__/as_unit/si and scaling by a plain "
